@@ -14,6 +14,8 @@ from pest.grammar import Choice
 from pest.grammar import Repeat
 from pest.grammar import Rule
 from pest.grammar.expressions import OptimizedChoiceRepeat
+from pest.grammar.rule import ATOMIC
+from pest.grammar.rule import COMPOUND
 from pest.grammar.rule import SILENT
 from pest.grammar.rule import SILENT_ATOMIC
 from pest.grammar.rule import BuiltInRule
@@ -59,11 +61,15 @@ class OptimizerStep:
     direction: PassDirection
     fixed_point: bool = False
     predicate: OptimizerPassPredicate | None = None
+    atomic_only: bool = False
+    """If `True`, the pass assumes there is no implicit trivia between the
+    expressions it rewrites. It is applied to atomic (`@`, `$`) rules only,
+    unless the grammar defines neither `WHITESPACE` nor `COMMENT`."""
 
 
 DEFAULT_OPTIMIZER_PASSES = [
     OptimizerStep("unroll", unroll, PassDirection.POSTORDER),
-    OptimizerStep("skip", skip, PassDirection.PREORDER),
+    OptimizerStep("skip", skip, PassDirection.PREORDER, atomic_only=True),
     OptimizerStep("inline built-in", inline_builtin, PassDirection.PREORDER),
     OptimizerStep("squash_choice", squash_choice, PassDirection.POSTORDER),
     OptimizerStep("inline silent", inline_silent_rules, PassDirection.POSTORDER),
@@ -89,6 +95,7 @@ class Optimizer:
             self.log.clear()
 
         assert isinstance(rules, dict)
+        has_trivia = "WHITESPACE" in rules or "COMMENT" in rules
         self._optimize_skip_rule(rules)
 
         for step in self.passes:
@@ -99,6 +106,15 @@ class Optimizer:
                 if isinstance(rule, BuiltInRule):
                     # Built-in rule objects are shared by every parser in the
                     # process; rewriting them would change other parsers.
+                    continue
+
+                if (
+                    step.atomic_only
+                    and has_trivia
+                    and not rule.modifier & (ATOMIC | COMPOUND)
+                    and name not in ("WHITESPACE", "COMMENT")
+                ):
+                    # Implicit trivia may be matched inside this rule.
                     continue
 
                 # TODO: some passes should only be applied to atomic rules
